@@ -14,6 +14,7 @@ mod c14;
 mod c15;
 mod c16;
 mod c17;
+mod c18;
 mod common;
 mod selftest;
 
@@ -93,6 +94,31 @@ fn main() {
         "C15" => c15::run(&tier),
         "C16" => c16::run(&tier),
         "C17" => c17::run(&tier),
+        "C18" => match replay {
+            Some(p) => common::replay_explorer(prop, &p, c18::specs(&tier), &c18::C18),
+            None => {
+                let deadline = std::time::Instant::now() + common::wall_budget(&tier) / 2;
+                let (dv, devals, dexh) = c18::domain(&tier, deadline);
+                common::run_explorer_ext(
+                    prop,
+                    &tier,
+                    c18::specs(&tier),
+                    &c18::C18,
+                    "full-domain enumeration of dates and times through set_*/flush/re-list + explicit-state exploration of the stamping rules under a counter clock",
+                    vec!["timestamps of directories: only the creation stamp is checked strictly (modification/access of a directory entry change when the directory is written/read)".into()],
+                    "model_checking",
+                    &|rep: &mut harness::report::Report| {
+                        for (sig, msg) in &dv {
+                            rep.add(common::violation("C18", sig, msg, "timestamp-domain"), serde_json::json!({"check": "C18", "case": msg}));
+                        }
+                        let o = rep.coverage.as_object_mut().unwrap();
+                        o.insert("domain_roundtrips".into(), devals.into());
+                        o.insert("domain_exhaustive".into(), dexh.into());
+                        o.insert("domain_rule".into(), "every (year, month, day) accepted by Date::new (1980..=2107 x 1..=12 x 1..=31) with one time; every time of day (thorough: all 8 640 000 ten-millisecond steps + all millisecond values of 4 seconds; quick: all 86 400 seconds x millis in {0,10,990,995} + all 200 fine-resolution values per hour) with one date; each through open_file -> set_created/set_modified/set_accessed -> flush -> drop -> re-list, accessors and raw words compared with an independent DOS packing".into());
+                    },
+                )
+            }
+        },
         "C14" => {
             let ctr = std::sync::Arc::new(c14::Counters::default());
             let ck = c14::C14 { ctr: ctr.clone(), subsets: common::is_thorough(&tier) };
